@@ -77,7 +77,9 @@ def unpack_rewrite(t):
                     return ("call", ("unbound", "UNPACK"), (ikw["iterable"],), ())
     if name == "numpy.repeat" and set(kw) == {"a", "repeats"}:
         a = strip(kw["a"])
-        if head(a) == "call" and strip(a[1]) == ("glob", "numpy.arange") and dict(a[3]).get("start") == ("call", ("glob", "builtins.len"), (kw["repeats"],), ()) and len(a[3]) == 1:
+        akw = dict(a[3]) if head(a) == "call" else {}
+        if head(a) == "call" and strip(a[1]) == ("glob", "numpy.arange") and akw.get("stop") == ("call", ("glob", "builtins.len"), (kw["repeats"],), ()) \
+                and set(akw) <= {"start", "stop"} and ("start" not in akw or is_const(strip(akw["start"]), 0)):
             return ("call", ("unbound", "UNPACK"), (kw["repeats"],), ())
     return t
 
